@@ -65,16 +65,15 @@ theorem dstar_in_ctfSoundClass (target : MG Name) (ds : List Domain) (o c : Even
     rcases List.mem_append.1 hp with h | h
     · exact List.mem_append_right _ h
     · exact List.mem_append_left _ h
-  obtain ⟨D, dstar', dNames', hDv, h2', hDn, hfacts⟩ := line2C_ok target hwf o c
+  obtain ⟨lk, D, dstar', dNames', hlk, _, _, hDv, h2', hDn, hfacts⟩ := line2C_ok target hwf o c
     (fun p hp => hok p (List.mem_append_left _ hp)) (fun p hp => hok p (List.mem_append_right _ hp))
+    (fun p hp => (hplain p (List.mem_append_left _ hp)).1)
   rw [h2] at h2'
   simp only [Except.ok.injEq, Prod.mk.injEq] at h2'
   obtain ⟨rfl, rfl⟩ := h2'
   have hDflat : ∀ w ∈ D, w ∈ comps.flatten := by
-    have hc := cls.comps_ok
-    unfold condComps at hc
-    unfold dstarVars at hDv
-    simp only [bind, Except.bind, hc, pure, Except.pure, Except.ok.injEq] at hDv
+    rw [dstarVars_eq, cls.comps_ok, hlk] at hDv
+    simp only [Except.bind, Except.ok.injEq] at hDv
     intro w hw
     rw [← hDv] at hw
     obtain ⟨C, hC, hwC, _⟩ := (mem_deriveVars comps _ w).1 hw
@@ -90,13 +89,13 @@ theorem dstar_in_ctfSoundClass (target : MG Name) (ds : List Domain) (o c : Even
     intro p hp
     obtain ⟨p', hp', hc', _⟩ := hfacts.origin p hp
     exact convertOne_consistent target p'.1 p.1 hc'
-      (cls.flat_consistent hwf p'.1 (hDflat _ ((mem_deriveEvent o D p').1 hp').1))
+      (cls.flat_consistent hwf p'.1 (hDflat _ ((mem_deriveEvent lk D p').1 hp').1))
   have honeD : ∀ p ∈ dstar, ∀ p' ∈ dstar, p.1.name = p'.1.name → p.1 = p'.1 := by
     intro p hp p' hp' hn
     obtain ⟨a, ha, hca, _⟩ := hfacts.origin p hp
     obtain ⟨b, hb, hcb, _⟩ := hfacts.origin p' hp'
     have hab : a.1 = b.1 := by
-      apply cls.oneWorld a.1 (hDflat _ ((mem_deriveEvent o D a).1 ha).1) b.1 (hDflat _ ((mem_deriveEvent o D b).1 hb).1)
+      apply cls.oneWorld a.1 (hDflat _ ((mem_deriveEvent lk D a).1 ha).1) b.1 (hDflat _ ((mem_deriveEvent lk D b).1 hb).1)
       rw [← (convertOne_spec target a.1 p.1 hca).1, ← (convertOne_spec target b.1 p'.1 hcb).1]
       exact hn
     rw [hab, hcb] at hca
